@@ -14,7 +14,7 @@
    _refuted / _partial pairs (genuine weaknesses of the unchanged code, see known_findings/C08.json):
      C08_toc_total_refuted / _partial            format_toc lets any exception of to_node but NotImplementedError escape
      C08_isolation_split_field_refuted           a split field's summary failure overwrites its parent's cached summary
-                                                 (C08_isolation is the _partial: objects that render their own docstring)
+                                                 (C08_isolation_partial / _frame_partial / _other_object_partial: objects that render their own docstring)
      C08_epytext_to_node_refuted / _partial      ParsedEpytextDocstring.to_node caches an empty document before a failing
                                                  conversion: the failure is raised once, then silently lost
      C08_reported_parse_error_refuted            a parser raising ParseError without recording it is not reported
@@ -108,11 +108,12 @@ Theorem C08_report_errors_once :
     e1 <> [] -> report_errors (report_errors st w e1 sec) w e2 sec = report_errors st w e1 sec.
 Proof. exact report_errors_idem. Qed.
 
-(* Non-interference.  For an object o that renders its own docstring: the value returned by format_docstring /
+(* Non-interference (_partial: the guard `renders_own_docstring` excludes split fields, for which the statement is
+   false: C08_isolation_split_field_refuted).  For an object o that renders its own docstring: the value returned by format_docstring /
    format_summary / format_toc for o, o's view afterwards and the reports appended are THE SAME from any two
    states that agree on o's own caches and on o's membership in parse_errors -- whatever happened to any other
    object in between. *)
-Theorem C08_isolation :
+Theorem C08_isolation_partial :
   forall (O : oracles) (c : config) (s1 s2 : state) (k : opk) (o : oid),
     renders_own_docstring c s1 o -> same_view o s1 s2 ->
     fst (run_opk O c s1 k o) = fst (run_opk O c s2 k o) /\
@@ -123,14 +124,14 @@ Proof. exact isolation_noninterference. Qed.
 
 (* ... and rendering o touches nothing but o: every other object keeps its caches and its parse_errors
    membership; the report log only grows, by reports naming o. *)
-Theorem C08_isolation_frame :
+Theorem C08_isolation_frame_partial :
   forall (O : oracles) (c : config) (st : state) (k : opk) (o : oid),
     renders_own_docstring c st o -> touches_only o st (snd (run_opk O c st k o)).
 Proof. exact run_opk_touches. Qed.
 
 (* Together: whatever was rendered for o (and however it failed), o' <> o renders exactly as if o had never been
    rendered, and gets the same reports. *)
-Theorem C08_isolation_other_object :
+Theorem C08_isolation_other_object_partial :
   forall (O : oracles) (c : config) (st : state) (k k' : opk) (o o' : oid),
     o <> o' -> renders_own_docstring c st o -> renders_own_docstring c st o' ->
     let st1 := snd (run_opk O c st k o) in
@@ -368,7 +369,7 @@ Example C08_isolation_hypotheses_satisfiable :
   RDoc {| d_body := BStan (SPre [2]); d_fields := [] |}.
 Proof.
   split; [discriminate|]. split; [left; discriminate|]. split; [left; discriminate|]. split.
-  - apply (C08_isolation_frame exO exC st0 OpDocstring 1); [left; discriminate|discriminate].
+  - apply (C08_isolation_frame_partial exO exC st0 OpDocstring 1); [left; discriminate|discriminate].
   - vm_compute. reflexivity.
 Qed.
 
